@@ -1,0 +1,55 @@
+//go:build verif
+
+package translate
+
+import (
+	"context"
+
+	"github.com/specterops/dawgs/cypher/models/pgsql"
+	"github.com/specterops/dawgs/cypher/models/pgsql/optimize"
+	"github.com/specterops/dawgs/cypher/models/walk"
+)
+
+// TranslateWithPlan is Translate with the optimization plan supplied by the caller instead of being computed by
+// optimize.Optimize. It exists for verification builds only (build tag verif): a plan that carries nothing but a copy
+// of the query (no rewrite rules applied, empty lowering plan) yields the translation "with all optimisation
+// disabled"; a plan with a single lowering class left in place isolates that lowering.
+//
+// The body mirrors Translate step for step.
+func TranslateWithPlan(ctx context.Context, optimizedPlan optimize.Plan, kindMapper pgsql.KindMapper, parameters map[string]any, graphID int32) (Result, error) {
+	translator := NewTranslator(ctx, kindMapper, parameters, graphID)
+	if membershipAliases, err := collectIDMembershipAliases(optimizedPlan.Query); err != nil {
+		return Result{}, err
+	} else {
+		translator.collectIDMembershipAliases = membershipAliases
+	}
+	translator.SetOptimizationPlan(optimizedPlan)
+	translator.translation.Optimization.Rules = optimizedPlan.Rules
+	translator.translation.Optimization.PredicateAttachments = optimizedPlan.PredicateAttachments
+	if !optimizedPlan.LoweringPlan.Empty() {
+		loweringPlan := optimizedPlan.LoweringPlan
+		translator.translation.Optimization.LoweringPlan = &loweringPlan
+		translator.translation.Optimization.PlannedLowerings = loweringPlan.Decisions()
+	}
+
+	if translated, err := translator.translateCountStoreFastPath(optimizedPlan.Query, optimizedPlan.LoweringPlan); err != nil {
+		return Result{}, err
+	} else if translated {
+		translator.recordSkippedLowerings()
+		return translator.translation, nil
+	}
+
+	if translated, err := translator.translateAggregateTraversalCount(optimizedPlan.Query, optimizedPlan.LoweringPlan); err != nil {
+		return Result{}, err
+	} else if translated {
+		translator.recordSkippedLowerings()
+		return translator.translation, nil
+	}
+
+	if err := walk.Cypher(optimizedPlan.Query, translator); err != nil {
+		return Result{}, err
+	}
+
+	translator.recordSkippedLowerings()
+	return translator.translation, nil
+}
